@@ -134,6 +134,46 @@ theorem sessSetup_result_iff_failing_event (P : Proj) (insts : Insts) (w : Nat) 
   rw [phaseProgram_failed _ _ _ _ _ _ _ _ _ _ (ts0_successful insts cut fl _)]
   cases isSuccessful _ _ <;> rfl
 
+/-! ### Teardown tasks, and the session-wide failure flag -/
+
+/-- Teardown tasks have no verdict of their own: `SuiteTeardownTask.run` / `TestSessionTeardownTask.run`
+    return nothing (→ `TaskResultSuccess`), and `skip` just calls `run`.  So the full-strength statement
+    "`res = failure` ⇔ a failing event at the task's location" is FALSE for them by design of the runner
+    (an error log in a teardown leaves `res = success`); what is true is this, together with
+    `task_failed_flag_iff` below (the failure reaches `session.is_successful()` and the report). -/
+theorem teardown_task_result (P : Proj) (insts : Insts) (w : Nat) (t : TaskId) (run reason : Bool) (kept : List Td)
+    (cut fl : Option Nat) (hk : t.kind = .teardown ∨ t.kind = .sessTeardown) :
+    (runTask P insts w t run reason kept cut fl).res = if run then .success else .skipped := by
+  rw [runTask_res]
+  unfold taskProgram
+  rcases hk with hk | hk <;> simp only [hk, exec_bind, exec_pure]
+
+/-- **`session.is_successful()` ⇔ no failing event**, per task: the flag a task leaves for
+    `--stop-on-failure` and the exit code (`eff.failed`) is set iff some event in the task's output fails
+    some location — for every located task kind, run or skipped. -/
+theorem task_failed_flag_iff (P : Proj) (insts : Insts) (w : Nat) (t : TaskId) (run reason : Bool) (kept : List Td)
+    (cut fl : Option Nat) (L : Loc) (hL : taskLoc t = some L) :
+    (runTask P insts w t run reason kept cut fl).eff.failed = true ↔
+      ∃ e loc, Item.ev e ∈ (runTask P insts w t run reason kept cut fl).items ∧ failsAt e loc = true := by
+  have h := tra_taskProgram_own P (allSuites P) w t run reason kept L hL
+  obtain ⟨_, hj, hf⟩ := runTask_of_tr P insts w t run reason kept cut fl h (jt_init _)
+  show (!(finalTS P insts w t run reason kept cut fl).sess.failures.isEmpty) = true ↔ _
+  constructor
+  · intro hne
+    cases hfl : (finalTS P insts w t run reason kept cut fl).sess.failures with
+    | nil => rw [hfl] at hne; cases hne
+    | cons l rest =>
+      have hm : l ∈ (finalTS P insts w t run reason kept cut fl).sess.failures := by rw [hfl]; simp
+      obtain ⟨e, he, hfa⟩ := (hj.1.sync l).mp hm
+      rw [hf] at he
+      exact ⟨e, l, (mem_filterMap_evOf _ _).mp he, hfa⟩
+  · rintro ⟨e, loc, he, hfa⟩
+    have hm : loc ∈ (finalTS P insts w t run reason kept cut fl).sess.failures :=
+      (hj.1.sync loc).mpr ⟨e, by rw [hf]; exact (mem_filterMap_evOf _ _).mpr he, hfa⟩
+    cases hfl : (finalTS P insts w t run reason kept cut fl).sess.failures with
+    | nil => rw [hfl] at hm; cases hm
+    | cons l rest => rfl
+
 /-! ### Exceptions become error logs -/
 
 theorem markFailed_now (s : St) (l : Loc) : (markFailed s l).now = s.now := by
@@ -186,5 +226,33 @@ theorem handleException_spec (k : ExcKind) (suite : Option Path) (withSuite : Bo
 theorem handleException_flushes_only_starts (ts : TS) (c : Cursor) (hinv : Inv ts.sess)
     (hc : getCursor ts.sess 0 = some c) : ∀ e ∈ c.pending, holdable e = true :=
   pending_holdable hinv.held hc
+
+/-! ### Non-vacuity (premises hold on the concrete project `Sample.PA`; a state with a cursor exists) -/
+
+open Sample in
+example :
+    let out := runTask PA Insts.empty 0 ⟨.test, ["s", "t"]⟩ true false [] none none
+    (out.res = .failure ↔ ∃ e, Item.ev e ∈ out.items ∧ failsAt e (.test ["s", "t"]) = true) :=
+  (test_result_iff_failing_event PA Insts.empty 0 ⟨.test, ["s", "t"]⟩ false [] none none rfl svA hsvA tA htA rfl).1
+
+open Sample in
+example :
+    let out := runTask PA Insts.empty 0 ⟨.init, ["s"]⟩ true false [] none none
+    (out.res = .success ↔ ¬ ∃ e, Item.ev e ∈ out.items ∧ failsAt e (.suiteSetup ["s"]) = true) :=
+  (init_result_iff_failing_event PA Insts.empty 0 ⟨.init, ["s"]⟩ false [] none none rfl svA hsvS).2
+
+/-- a failing event does fail its location (the right-hand sides above are satisfiable) -/
+example : failsAt (.check (.test ["s", "t"]) (some "x") 0 "" false none 5) (.test ["s", "t"]) = true := by decide
+
+/-- `handleException_spec` on a worker whose cursor holds a pending step start: step start flushed, then the error log -/
+example :
+    let c : Cursor := { loc := .test ["s", "t"], step := some "x", pending := [.stepStart (.test ["s", "t"]) "x" 0 2] }
+    let ts : TS := { ts0 Insts.empty none none with sess := setCursor St.init 0 c }
+    (exec (handleException .abortSuite (some ["s"]) true) ts).2.out.toList =
+        [.ev (.stepStart (.test ["s", "t"]) "x" 0 2), .ev (.log (.test ["s", "t"]) (some "x") 0 .error "" 1)] ∧
+     (exec (handleException .abortSuite (some ["s"]) true) ts).2.abortedSuites = [some ["s"]] := by
+  intro c ts
+  have h := handleException_spec .abortSuite (some ["s"]) true ts c (by rfl)
+  exact ⟨h.1, h.2.2.2.1⟩
 
 end LccModel.C02Run
